@@ -120,6 +120,35 @@ func runC18(c *Ctx, r *Rec) {
 			r.check(bad == "", "D3-operand-snapshot", construct, c.pos(fd.Pos()), "the operand is read only through GetSize/IsEmpty/AsArray/GetIterator (or handed to a method that does so)", bad)
 		}
 	}
+	// the universal constructors of the module: the collection returned is built in the call,
+	// it is never one of the arguments handed in
+	for _, fd := range c.allFuncDecls("module") {
+		if !ast.IsExported(fd.Name.Name) || fd.Recv != nil || fd.Body == nil {
+			continue
+		}
+		fn := c.funcOf(fd)
+		sf := fa.byFD[fd]
+		if fn == nil || sf == nil {
+			continue
+		}
+		sig := fn.Type().(*types.Signature)
+		if !sig.Variadic() || sig.Results().Len() != 1 || !isCollectionLike(sig.Results().At(0).Type()) {
+			continue
+		}
+		sum := fa.sum[sf]
+		nD2++
+		construct := c.fdName(fd) + "/result#0"
+		bad := ""
+		if len(sum.freshRet) > 0 && !sum.freshRet[0] {
+			bad = "the collection returned is not built in this call: it is " + sum.whyRet[0]
+		}
+		for pi, al := range sum.aliasRet {
+			if al && pi < sig.Params().Len() {
+				bad = "the collection returned can be one of the arguments themselves (" + sig.Params().At(pi).Name() + "): the caller's collection and the 'new' one are the same object"
+			}
+		}
+		r.check(bad == "", "D2-result-fresh", construct, c.pos(fd.Pos()), "built by a class constructor in this call; never an argument handed back", bad)
+	}
 	checkCellsNotShared(c, r, "D2-cells-not-shared")
 	r.count("slice/map parameters", nD1)
 	r.count("container results", nD2)
